@@ -252,6 +252,8 @@ def run_scenario(scenario, _unused):
                 keep.append(basix.ufl.element("N1curl", "tetrahedron", 2))
             elif kind == "quadelement":
                 keep.append(basix.ufl.quadrature_element("triangle", degree=3))
+            elif kind == "index":
+                keep.append(ufl.Index())
             else:
                 raise ValueError(kind)
 
